@@ -805,12 +805,388 @@ def deepen(ctx):
            f"{len(bad)} violations; first: n={bad[0][0]}: {bad[0][1]}" if bad else "")
 
 
+# ---------------------------------------------------------------------------
+# phase 2b: phase_encoder, binary encoders (hyperspherical / Hopf), complex Hamming-weight
+# encoder inside the model (QV/Model/EncodingsB.lean): verbatim queues with symbolic angle
+# indices, gate semantics, and the hypotheses of the loading-chain / tree theorems on the
+# real circuits
+# ---------------------------------------------------------------------------
+
+CTRL_ALIASES = {"crx": "rx", "cry": "ry", "crz": "rz", "cu3": "u3"}
+
+
+def base_name(g):
+    return CTRL_ALIASES.get(g.name, g.name)
+
+
+def bq_text(queue, nqubits=None):
+    """canonical text of a real queue in the format of `BG.show` (QV/Model/EncodingsB.lean).
+    Symbolic indices are derived from the STRUCTURE of the queue only: `k` counts the steps
+    (RBS / RY / RX / U3 gates and free-standing RZ gates) in queue order; the two RZ gates that
+    follow an RBS on its two targets with the same controls belong to its step (`-k` on the
+    first target, `+k` on the second: that the parameters are really -phi and +phi is checked by
+    value in `chain_relations`); a controlled RZ that closes the queue is the phase correction
+    (`+2*k`; any qubit outside its controls is equivalent -- numpy's argsort picks one -- so the
+    smallest is printed); a U3 that closes the queue is the `u3l` of the complex encoder."""
+    out = []
+    q = list(queue)
+    k = 0
+    pending = []
+    for pos, g in enumerate(q):
+        nm = base_name(g)
+        cs = sorted(int(c) for c in g.control_qubits)
+        ts = [int(t) for t in g.target_qubits]
+        ctl = (" c " + " ".join(map(str, cs))) if cs else ""
+        if nm == "x" and not cs:
+            s = f"x {ts[0]}"
+        elif nm in ("rx", "ry"):
+            s = f"{nm} {ts[0]} {k}{ctl}"
+            k += 1
+            pending = []
+        elif nm == "rbs":
+            s = f"rbs {ts[0]} {ts[1]} {k}{ctl}"
+            pending = [(ts[0], "-", cs, k), (ts[1], "+", cs, k)]
+            k += 1
+        elif nm == "u3":
+            s = (f"u3l {ts[0]} {k}{ctl}" if pos == len(q) - 1 else f"u3 {ts[0]} {k} {k}{ctl}")
+            k += 1
+            pending = []
+        elif nm == "rz" and pending and pending[0][0] == ts[0] and pending[0][2] == cs:
+            _, sign, _, kk = pending.pop(0)
+            s = f"rz {ts[0]} {sign}{kk}{ctl}"
+        elif nm == "rz" and cs and pos == len(q) - 1 and ts[0] not in cs:
+            free = [r for r in range(nqubits if nqubits is not None else max(cs + ts) + 1) if r not in cs]
+            s = f"rz {min(free)} +2*{k}{ctl}"
+        elif nm == "rz" and not cs:
+            s = f"rz {ts[0]} +{k}"
+            k += 1
+            pending = []
+        else:
+            s = f"{g.name} t{tuple(ts)} c{tuple(cs)} p{tuple(float(np.real(p)) for p in g.parameters)}"
+        out.append(s)
+    return ";".join(out)
+
+
+PRIMES = {2: "c", 3: "s", 5: "p", 7: "m", 11: "i", 13: "lp0", 17: "lm0", 19: "lp1", 23: "lm1"}
+
+
+def decode_entry(v, val):
+    """integer matrix entry of the model over Z (scalars = distinct primes) -> complex number."""
+    if v == 0:
+        return 0.0
+    z = -1.0 if v < 0 else 1.0
+    v = abs(v)
+    for p, nm in PRIMES.items():
+        while v % p == 0:
+            z = z * val[nm]
+            v //= p
+    if v != 1:
+        raise ValueError("model matrix entry is not a product of the scalars")
+    return z
+
+
+def gate_semantics(ctx):
+    """`BG.sem` (the matrices the theorems are about) vs the matrices of the real gate classes,
+    at random angles: the model's matrix is evaluated by the Lean driver over the integers with the
+    scalars replaced by distinct primes and decoded here."""
+    ev = ns()
+    nb = ev["nb"]
+    from qibo import gates
+    rng = ctx.rng
+    kinds = [("x", 0, 0, 0), ("rx", 1, 0, 0), ("ry", 2, 0, 0), ("rz", 3, 0, 0), ("rz-", 3, 1, 0), ("rz2", 3, 0, 1),
+             ("rz-2", 3, 1, 1), ("rbs", 4, 0, 0), ("u3", 5, 0, 0), ("u3l", 6, 0, 0)]
+    outs = run_driver([f"MAT {k} {ng} {db}" for _, k, ng, db in kinds], driver=DRIVER)
+    bad = []
+    for (nm, k, ng, db), out in zip(kinds, outs):
+        for rep in range(6):
+            th, ph, ph2, lam = (rng.uniform(-7, 7) for _ in range(4))
+            if rep == 0:
+                th, ph = 0.0, 0.0
+            val = {"c": math.cos(th), "s": math.sin(th), "p": np.exp(0.5j * ph), "m": np.exp(-0.5j * ph), "i": 1j,
+                   "lp0": np.exp(0.5j * (ph2 + lam)), "lm0": np.exp(-0.5j * (ph2 + lam)),
+                   "lp1": np.exp(0.5j * (ph2 - lam)), "lm1": np.exp(-0.5j * (ph2 - lam))}
+            ctx.case(("gate-sem", nm, rep))
+            ctx.stat("gate_semantics")
+            try:
+                model = np.array([[decode_entry(int(t), val) for t in row.split()] for row in out.split(";")], dtype=complex)
+                g = {"x": lambda: gates.X(0), "rx": lambda: gates.RX(0, 2 * th), "ry": lambda: gates.RY(0, 2 * th),
+                     "rz": lambda: gates.RZ(0, ph), "rz-": lambda: gates.RZ(0, -ph), "rz2": lambda: gates.RZ(0, 2 * ph),
+                     "rz-2": lambda: gates.RZ(0, -2 * ph), "rbs": lambda: gates.RBS(0, 1, th),
+                     "u3": lambda: gates.U3(0, 2 * th, 2 * ph, 0.0), "u3l": lambda: gates.U3(0, 2 * th, ph2, lam)}[nm]()
+                realm = np.asarray(g.matrix(nb))
+                good = realm.shape == model.shape and np.allclose(realm, model, atol=1e-12)
+                obs = "" if good else f"model {np.round(model, 6).tolist()} real {np.round(realm, 6).tolist()}"
+            except Exception as e:  # noqa: BLE001
+                good, obs = False, f"raised {type(e).__name__}: {e}"
+            if not good:
+                bad.append((nm, obs))
+    ctx.ob("C20_corr_gate_semantics", not bad, "correspondence",
+           f"{len(bad)} disagreements; first: gate {bad[0][0]}: {bad[0][1][:300]}" if bad else "")
+
+
+def rand_data(rng, d, cplx):
+    x = np.array([rng.uniform(0.1, 1) * rng.choice([-1, 1]) for _ in range(d)])
+    if cplx:
+        x = x.astype(complex) * np.array([np.exp(1j * rng.uniform(0, 6.28)) for _ in range(d)])
+    return x
+
+
+def correspondence_b(ctx):
+    ev = ns()
+    E = ev["E"]
+    rng = ctx.rng
+    # -- phase_encoder
+    cases = []
+    for n in list(range(1, 13)) + [20, 33]:
+        for r, rot in enumerate(("RX", "RY", "RZ")):
+            x = [rng.uniform(-7, 7) for _ in range(n)]
+            arg = x if rng.random() < 0.5 else np.array(x)
+
+            def ptxt():
+                c = E.phase_encoder(arg, rotation=rot)
+                pars = [float(g.parameters[0]) for g in c.queue]
+                assert len(c.queue) == n and pars == [float(v) for v in x], "parameter q of phase_encoder is not data[q]"
+                assert c.nqubits == n
+                return bq_text(c.queue)
+            cases.append((f"PHASE {n} {r}", real(ptxt), f"phase_encoder(<{n} reals>, {rot!r})"))
+    ctx.sample({"suite": "phase_encoder", "line": cases[7][0], "queue": cases[7][1]})
+    corr_suite(ctx, "phase_encoder", cases)
+    # -- hyperspherical binary encoder, real and complex data
+    cases = []
+    hmax = 8 if ctx.thorough else 7
+    for n in range(1, hmax + 1):
+        for cplx in (0, 1):
+            x = rand_data(rng, 2**n, cplx)
+            cases.append((f"HS {n} {cplx}", real(lambda: bq_text(E.binary_encoder(x, "hyperspherical").queue)),
+                          f"binary_encoder(<{2**n} {'complex' if cplx else 'real'}s>, 'hyperspherical')"))
+    ctx.sample({"suite": "hyperspherical", "line": cases[4][0], "queue": cases[4][1]})
+    corr_suite(ctx, "hyperspherical", cases)
+    # -- Hopf binary encoder
+    cases = []
+    for n in range(1, hmax + 1):
+        x = rand_data(rng, 2**n, 0)
+        cases.append((f"HOPF {n}", real(lambda: bq_text(E.binary_encoder(x, "hopf").queue)), f"binary_encoder(<{2**n} reals>, 'hopf')"))
+    ctx.sample({"suite": "hopf", "line": cases[1][0], "queue": cases[1][1]})
+    corr_suite(ctx, "hopf", cases)
+    # -- Hamming-weight encoder, every option, real and complex data
+    cases = []
+    wmax = 7 if ctx.thorough else 6
+    for n in range(2, wmax + 1):
+        for k in range(1, n):
+            d = math.comb(n, k)
+            for oc, fh, cplx, pc in itertools.product((1, 0), (0, 1), (0, 1), (1, 0)):
+                if not cplx and not pc and rng.random() < 0.5:
+                    continue
+                x = rand_data(rng, d, cplx)
+                cases.append((f"HWB {n} {k} {oc} {fh} {cplx} {pc}",
+                              real(lambda: bq_text(E.hamming_weight_encoder(x, n, k, full_hwp=bool(fh), optimize_controls=bool(oc), phase_correction=bool(pc)).queue, n)),
+                              f"hamming_weight_encoder(<{d} {'complex' if cplx else 'real'}s>, {n}, {k}, full_hwp={bool(fh)}, optimize_controls={bool(oc)}, phase_correction={bool(pc)})"))
+    ctx.sample({"suite": "hw_complex", "line": cases[6][0], "queue": cases[6][1]})
+    corr_suite(ctx, "hw_encoder_b", cases)
+
+
+# -- hypotheses of T20_loading_chain / T20_hw_phase_correction / T20_loading_chain_amplitudes
+#    on the REAL circuits
+
+CHAIN_SETUP = '''
+def base_matrix(g):
+    M = np.asarray(g.matrix(nb))
+    if g.name in ("crx", "cry", "crz", "cu3"):
+        assert np.allclose(M[:2, :2], np.eye(2)) and np.allclose(M[:2, 2:], 0) and np.allclose(M[2:, :2], 0)
+        M = M[2:, 2:]
+    return M
+def bname(g):
+    return {"crx": "rx", "cry": "ry", "crz": "rz", "cu3": "u3"}.get(g.name, g.name)
+def parse_chain(queue):
+    q = list(queue); i = 0; xs = []; steps = []; corr = None
+    while i < len(q) and q[i].name == "x" and not q[i].control_qubits:
+        xs.append(int(q[i].target_qubits[0])); i += 1
+    while i < len(q):
+        g = q[i]; nm = bname(g); cs = sorted(int(c) for c in g.control_qubits); ts = [int(t) for t in g.target_qubits]
+        if nm == "rbs":
+            st = dict(add=False, a=ts[0], b=ts[1], cs=cs, g=g, rz=[])
+            if i + 2 <= len(q) - 1 and bname(q[i+1]) == "rz" and bname(q[i+2]) == "rz" \\
+                    and [int(t) for t in q[i+1].target_qubits] == [ts[0]] and [int(t) for t in q[i+2].target_qubits] == [ts[1]] \\
+                    and sorted(int(c) for c in q[i+1].control_qubits) == cs and sorted(int(c) for c in q[i+2].control_qubits) == cs:
+                st["rz"] = [q[i+1], q[i+2]]; i += 2
+            steps.append(st)
+        elif nm in ("ry", "u3"):
+            steps.append(dict(add=True, a=ts[0], b=None, cs=cs, g=g, kind=nm, last=(i == len(q) - 1)))
+        elif nm == "rz" and i == len(q) - 1 and cs:
+            corr = dict(z=ts[0], cs=cs, g=g)
+        else:
+            raise ValueError(f"unexpected gate {g.name} at position {i}")
+        i += 1
+    return xs, steps, corr
+def chain_check(c, n, v0, cplx):
+    """hypotheses okAt / next / fixes of T20_loading_chain on the queue of `c`; returns the visited
+    labels (tuples of bits, qubit 0 first), the coefficients A_k, B_k read off the real gate matrices
+    and the factor of the phase correction."""
+    xs, steps, corr = parse_chain(c.queue)
+    v = [tuple(v0)]
+    assert len(xs) == len(set(xs))
+    if xs:
+        w = list(v0)
+        for t in xs:
+            w[t] = 1 - w[t]
+        v = [tuple(w)]
+    A, B = [], []
+    for k, st in enumerate(steps):
+        cur = v[-1]; a, b, cs = st["a"], st["b"], st["cs"]
+        assert a not in cs and all(cur[r] for r in cs), f"step {k}: controls not on"
+        if st["add"]:
+            assert cur[a] == 0, f"step {k}: target bit already 1"
+            nxt = list(cur); nxt[a] = 1
+            for j in range(k):
+                assert not all(v[j][r] for r in cs), f"step {k} touches the earlier state {j}"
+            M = base_matrix(st["g"])
+            if st["kind"] == "u3" and not st["last"]:
+                assert float(st["g"].parameters[2]) == 0.0, "U3 inside the chain has lambda != 0"
+            assert (st["kind"] == "u3") == cplx
+            A.append(M[0, 0]); B.append(M[1, 0])
+        else:
+            assert a != b and b not in cs and cur[a] == 1 and cur[b] == 0, f"step {k}: RBS does not find its string"
+            nxt = list(cur); nxt[a], nxt[b] = 0, 1
+            for j in range(k):
+                assert (not all(v[j][r] for r in cs)) or v[j][a] == v[j][b], f"step {k} touches the earlier state {j}"
+            M = base_matrix(st["g"])
+            assert M.shape == (4, 4)
+            Ak, Bk = M[2, 2], M[1, 2]
+            assert bool(st["rz"]) == cplx, "RZ pair present iff the data are complex"
+            if st["rz"]:
+                p1, p2 = float(st["rz"][0].parameters[0]), float(st["rz"][1].parameters[0])
+                assert p1 == -p2, f"step {k}: the two RZ parameters are not -phi, +phi"
+                Z1, Z2 = base_matrix(st["rz"][0]), base_matrix(st["rz"][1])
+                assert abs(Z1[0, 1]) + abs(Z1[1, 0]) + abs(Z2[0, 1]) + abs(Z2[1, 0]) == 0
+                Ak = Ak * Z1[1, 1] * Z2[0, 0]; Bk = Bk * Z1[0, 0] * Z2[1, 1]
+            A.append(Ak); B.append(Bk)
+        v.append(tuple(nxt))
+    d = 1.0
+    if corr is not None:
+        z, cs = corr["z"], corr["cs"]
+        assert z not in cs and all(v[-1][r] for r in cs) and v[-1][z] == 0, "phase correction misplaced"
+        for j in range(len(v) - 1):
+            assert not all(v[j][r] for r in cs), f"phase correction touches the earlier state {j}"
+        Z = base_matrix(corr["g"]); assert abs(Z[0, 1]) + abs(Z[1, 0]) == 0
+        d = Z[0, 0]
+    return v, A, B, d, corr is not None
+def chain_amps(A, B, d):
+    out = []; acc = 1.0
+    for a, b in zip(A, B):
+        out.append(acc * a); acc = acc * b
+    out.append(acc * d)
+    return np.array(out)
+def label_index(lab):
+    return int("".join(str(int(b)) for b in lab), 2)
+def binary_defect(x, par):
+    """state predicted by T20_loading_chain (+ amplitudes) from the real gate list vs x/|x|, and the walk covers every basis state once."""
+    x = np.asarray(x); n = int(round(math.log2(len(x)))); cplx = np.iscomplexobj(x)
+    c = E.binary_encoder(x, par)
+    v, A, B, d, hascorr = chain_check(c, n, [0] * n, cplx)
+    assert not hascorr
+    idx = [label_index(l) for l in v]
+    assert sorted(idx) == list(range(2**n)), "the walk does not visit every basis state exactly once"
+    amps = chain_amps(A, B, 1.0)
+    return float(np.abs(amps - x[idx] / np.linalg.norm(x)).max()), [("".join(map(str, l))) for l in v]
+def hw_defect(x, n, k, oc, pc):
+    x = np.asarray(x); cplx = np.iscomplexobj(x)
+    c = E.hamming_weight_encoder(x, n, k, optimize_controls=oc, phase_correction=pc)
+    v, A, B, d, hascorr = chain_check(c, n, [0] * n, cplx)
+    assert hascorr == (cplx and pc)
+    idx = [label_index(l) for l in v]
+    basis = [i for i in range(2**n) if bin(i).count("1") == k]
+    assert sorted(idx) == basis, "the walk does not visit every weight-k basis state exactly once"
+    amps = chain_amps(A, B, d)
+    tgt = np.asarray(x)[[basis.index(i) for i in idx]] / np.linalg.norm(x)
+    if cplx and not pc:   # without the correction the last amplitude keeps a phase: compare moduli there
+        amps = np.append(amps[:-1], abs(amps[-1])); tgt = np.append(tgt[:-1], abs(tgt[-1]))
+    return float(np.abs(amps - tgt).max())
+def hopf_defect(x):
+    """hypotheses of T20_binary_hopf on the real circuit: parameter e is twice the e-th tree angle in heap order and R_e cos = R_(2e+1), R_e sin = R_(2e+2)."""
+    x = np.asarray(x, dtype=float); d = len(x); n = int(round(math.log2(d)))
+    c = E.binary_encoder(x, "hopf")
+    par = np.array([float(g.parameters[0]) for g in c.queue if g.parameters])
+    th = np.asarray(E._generate_rbs_angles(x, "tree", d), dtype=float)
+    assert par.shape == (d - 1,) and np.array_equal(par, 2 * th), "parameters of the Hopf circuit are not twice the tree angles in queue order"
+    R = np.zeros(2 * d - 1); R[d - 1:] = x
+    for e in range(d - 2, -1, -1):
+        R[e] = math.hypot(R[2*e+1], R[2*e+2])
+    return max(max(abs(R[e]*math.cos(par[e]/2) - R[2*e+1]), abs(R[e]*math.sin(par[e]/2) - R[2*e+2])) for e in range(d - 1)) / max(1.0, R[0])
+'''
+
+
+def chain_relations(ctx):
+    """the decidable hypotheses of T20_loading_chain (okAt / next / fixes), of
+    T20_hw_phase_correction and the numerical ones of T20_loading_chain_amplitudes
+    (r_k A_k = x_k, r_k B_k = r_(k+1): equivalently the chain amplitudes computed from the real
+    gate parameters equal x/|x| to 1e-9), on the real circuits; and the walk of the model
+    (`hsWalk`) vs the order in which the real circuit writes the basis states."""
+    ev = dict(ns())
+    exec(CHAIN_SETUP, ev)
+    rng = ctx.rng
+    bad = []
+    walks = {}
+
+    def one(key, what, expr, setup, tol=1e-9):
+        ctx.case((key, setup, expr))
+        ctx.stat("chain:" + key.split(":")[0])
+        env = dict(ev)
+        try:
+            exec(setup, env)
+            res = eval(expr, env)
+            dfc = res[0] if isinstance(res, tuple) else res
+            good = bool(np.isfinite(dfc) and dfc <= tol)
+            obs = f"defect {dfc}"
+        except Exception as e:  # noqa: BLE001
+            good, obs, res = False, f"raised {type(e).__name__}: {e}", None
+        if not good:
+            bad.append((key, obs))
+            py = PRE + CHAIN_SETUP + setup + f"\ntry:\n    r = {expr}\nexcept Exception as e:\n    print('raised', repr(e)); sys.exit(1)\nd = r[0] if isinstance(r, tuple) else r\nprint(d)\nsys.exit(0 if np.isfinite(d) and d <= {tol} else 1)\n"
+            ctx.fail(key, what, py, expected=f"defect <= {tol} and all chain hypotheses hold", observed=obs[:600], broken=["C20_chain_relations"])
+        return res
+
+    nmax = 8 if ctx.thorough else 7
+    for n in range(1, nmax + 1):
+        for kind, x in data_vectors(rng, 2**n, True, 8 if n <= 5 else 4):
+            cplx = np.iscomplexobj(x)
+            cls = ("complex" if cplx else "real") + (":sparse" if (x == 0).any() else "")
+            res = one(f"binary_encoder:hyperspherical:chain:{cls}", f"the gates of binary_encoder(x, 'hyperspherical') with x={x.tolist()[:16]} do not form a loading chain that writes x/|x|",
+                      "binary_defect(x, 'hyperspherical')", f"x = {arr_repr(x)}\n")
+            if isinstance(res, tuple):
+                walks.setdefault(n, res[1])
+    hw = 7 if ctx.thorough else 6
+    for n in range(2, hw + 1):
+        for k in range(1, n):
+            d = math.comb(n, k)
+            for kind, x in data_vectors(rng, d, True, 6 if n <= 5 else 3):
+                cplx = np.iscomplexobj(x)
+                oc, pc = rng.random() < 0.5, rng.random() < 0.8
+                cls = ("complex" if cplx else "real") + (":sparse" if (x == 0).any() else "")
+                one(f"hamming_weight_encoder:chain:{cls}", f"the gates of hamming_weight_encoder(x, {n}, {k}, optimize_controls={oc}, phase_correction={pc}) with x={x.tolist()[:16]} do not form a loading chain that writes x/|x|",
+                    f"hw_defect(x, {n}, {k}, {oc}, {pc})", f"x = {arr_repr(x)}\n")
+    for n in range(1, nmax + 1):
+        for kind, x in data_vectors(rng, 2**n, False, 6 if n <= 5 else 3):
+            cls = "zero-pair" if has_zero_pair(x) else ("sparse" if (x == 0).any() else "dense")
+            one(f"binary_encoder:hopf:tree-relations:{cls}", f"angles of binary_encoder(x, 'hopf') with x={x.tolist()[:16]} violate the tree relations / heap order",
+                "hopf_defect(x)", f"x = {arr_repr(x)}\n")
+    ctx.ob("C20_chain_relations", not bad, "correspondence",
+           f"{len(bad)} violations; first: {bad[0][0]}: {bad[0][1][:300]}" if bad else "")
+    # -- the walk of the model vs the order in which the real circuits write the basis states
+    cases = []
+    for n, w in sorted(walks.items()):
+        cases.append((f"HSWALK {n}", " ".join(w), f"order in which binary_encoder(<{2**n} values>, 'hyperspherical') writes the basis states"))
+    corr_suite(ctx, "hs_walk", cases)
+
+
 def run(ctx):
     MODULES, THEOREMS = registry(PROP)
     ctx.theorems = THEOREMS
     build_and_audit(ctx, PROP, MODULES, THEOREMS)
     correspondence(ctx)
     deepen(ctx)
+    gate_semantics(ctx)
+    correspondence_b(ctx)
+    chain_relations(ctx)
     search_qft(ctx)
     search_simple(ctx)
     search_unary(ctx)
